@@ -19,6 +19,9 @@ CFG = {
         "hand-copied loop bodies - a per-input guarantee over a space no enumeration reaches."
     ),
     "level_note": (
+        "Results are fresh values: program cases (CProg) are accepted only when every pool member after every step equals the "
+        "model in which each result is an independent value; prog_sound proves those observations satisfy the boolean-array "
+        "specification for every program (c08_prog_sound, c08_fresh_values). "
         "case_sound is proved through the model theorems (accept = 'observed = model output', holds = 'observed = specification', "
         "no conjunction trick). Trusted: Coq kernel + vm_compute; the hand model C08_Model.v (+ BitSet.v set_i32/unset_i32/band/bor/"
         "brev/bequal); math/bits.TrailingZeros64 / Len64 / OnesCount64 modelled as ctz / N.log2 / popcount on the binary "
@@ -30,6 +33,11 @@ CFG = {
     "rule": (
         "one case = one call of one exported function on the real package (Bit64: 10 iterators, 8 GetN, Set/Unset/And/Or/Reverse/"
         "Len/NLen/Full; Bit1024: 8 iterators, 6 GetN, SetI32/UnsetI32/SetI16/UnsetI16, Len/NLen, Reverse/And/Or/OrThenReverse/Equal); "
+        "class prog/* = one PROGRAM over a pool of bitmaps (C08_Prog.v): NewBit1024 / literal bitmaps, And/Or/OrThenReverse/Reverse "
+        "results stored as returned (new pool members, never copied), later SetI32/UnsetI32/SetI16/UnsetI16 of any member (results "
+        "and operands), every pool member re-read after every step and compared with independent boolean arrays; prog/alias forces "
+        "empty intersections (disjoint operands), x op x, an empty operand (result equal to the other operand), mutates the result, "
+        "repeats the same kind of operation on other operands, then mutates operands and both results; "
         "iterator / GetN cases are non-trivial when the bitmap has at least one member, every other case always; "
         "distinct = distinct (function, inputs incl. sparse threshold, observed outcome)"
     ),
